@@ -160,6 +160,7 @@ def gen_plan(seed, tier):
     else:
       steps.append({"op": "set_config", "flags": r.pick([0, 1, 1]),
                     "msl": r.pick([0, 64, 1500])})
+  G.widen_vlan_args(steps, seed)
   return {"prop": PROP, "seed": seed, "cfg": cfg, "steps": steps}
 
 
